@@ -1,3 +1,78 @@
-#include <string>
-static void basicSetup() {}
-static std::string runBasic(bool, const std::string &) { return "null"; }
+// Basic-credential part of the C36 harness: src/auth/basic/Config.cc of the working tree is
+// included textually, so decodeCleartext() (private) and decode() are compiled from it.
+#ifndef VERIF_H_B64_BASIC_H
+#define VERIF_H_B64_BASIC_H
+// every standard header first: the access-specifier trick below must not reach libstdc++
+#include "hcommon.h"
+#include <sstream>
+#include <iostream>
+#include <fstream>
+#include <iomanip>
+#include <map>
+#include <unordered_map>
+#include <set>
+#include <list>
+#include <vector>
+#include <deque>
+#include <queue>
+#include <stack>
+#include <memory>
+#include <functional>
+#include <algorithm>
+#include <optional>
+#include <variant>
+#include <chrono>
+#include <random>
+#include <regex>
+#include <atomic>
+#include <limits>
+#include <utility>
+#include <tuple>
+#include <array>
+#include <bitset>
+#include <typeinfo>
+#include <stdexcept>
+#include <iterator>
+#define private public
+#define protected public
+#include "auth/basic/Config.h"
+#include "auth/basic/User.h"
+#include "auth/basic/UserRequest.h"
+#include "auth/User.h"
+#include "auth/UserRequest.h"
+#undef private
+#undef protected
+#include "../src/auth/basic/Config.cc"
+#include "hcommon.h"
+
+static Auth::Basic::Config *theBasicConfig = nullptr;
+
+static void basicSetup() {
+    theBasicConfig = new Auth::Basic::Config;
+    theBasicConfig->utf8 = false;
+}
+
+static std::string hexOrNull(const char *s) { return s ? tohex(s, strlen(s)) : std::string("null"); }
+
+static std::string runBasic(bool caseSensitive, const std::string &hdr) {
+    theBasicConfig->casesensitive = caseSensitive ? 1 : 0;
+    // (a) the private helper on its own
+    char *ct = theBasicConfig->decodeCleartext(hdr.c_str(), nullptr);
+    const std::string cleartext = hexOrNull(ct);
+    const bool haveCt = ct != nullptr;
+    xfree(ct);
+    // (b) the public entry point, which calls the helper and splits user from password
+    Auth::UserRequest::Pointer ur = theBasicConfig->decode(hdr.c_str(), nullptr, nullptr);
+    Auth::User::Pointer u = ur->user();
+    std::string out;
+    if (u == nullptr) {
+        out = "null";
+        if (haveCt) out += " BAD-HELPER-MISMATCH";
+        return out;
+    }
+    auto *bu = dynamic_cast<Auth::Basic::User *>(u.getRaw());
+    out = "user=" + hexOrNull(u->username()) + " pass=" + hexOrNull(bu ? bu->passwd : nullptr);
+    if (!haveCt) out += " BAD-HELPER-MISMATCH";
+    return out + " ct=" + cleartext;
+}
+#endif
